@@ -9,7 +9,10 @@ schema for the extracted model (command `c09`: Types.process).  Compared: whethe
 when there is none -- per leaf the projected type (name, kind, units, default/hasdef, fraction-digits,
 range/length text, pattern list, enum and bit members with their values, path, identityref base, union members
 recursively) and DefaultValues().  A third, independent reading of the property text (the generator's own
-binder) fixes the INTENT of every case (error / no error); the model has to agree with that as well."""
+binder) fixes the INTENT of every case (error / no error); the model has to agree with that as well.
+Family "pinned revision": several revisions of a library module loaded together, imports with / without
+revision-date, all / many load orders; the implementation's leaf types are compared with expectations fixed by
+construction (an oracle on the implementation alone), and with the revision-aware model."""
 import json
 import random
 import tempfile
@@ -143,14 +146,23 @@ class Module:
     def __init__(self, name, sub, prefix, belongs):
         self.name, self.sub, self.prefix, self.belongs = name, sub, prefix, belongs
         self.imports, self.includes = [], []
+        self.import_rev = {}        # index in imports -> revision-date
+        self.revisions = []         # revision statements; the greatest is the module's revision
         self.foreign_uses = []      # "pfx:grouping" of an imported module, instantiated at this module's top level
         self.top = Scope("top", name, self, None)
 
+    @property
+    def rev(self):
+        return max(self.revisions) if self.revisions else ""
+
     def toks(self):
-        t = [hx(self.name), "1" if self.sub else "0", hx(self.prefix), hx(self.belongs or ""), str(len(self.imports))]
-        for p, m in self.imports:
-            t += [hx(p), hx(m)]
-        t += [str(len(self.includes))] + [hx(i) for i in self.includes]
+        t = [hx(self.name), "1" if self.sub else "0", hx(self.rev), hx(self.prefix), hx(self.belongs or ""),
+             str(len(self.imports))]
+        for i, (p, m) in enumerate(self.imports):
+            t += [hx(p), hx(m), ohx(self.import_rev.get(i))]
+        t += [str(len(self.includes))]
+        for i in self.includes:
+            t += [hx(i), "N"]
         return t + self.top.toks()
 
 
@@ -215,8 +227,13 @@ def render_module(m):
         out.append("  yang-version 1.1;")
         out.append('  namespace "urn:%s";' % m.name)
         out.append("  prefix %s;" % m.prefix)
-    for p, n in m.imports:
-        out.append("  import %s { prefix %s; }" % (n, p))
+    for r in m.revisions:
+        out.append("  revision %s;" % r)
+    for i, (p, n) in enumerate(m.imports):
+        if i in m.import_rev:
+            out.append("  import %s { prefix %s; revision-date %s; }" % (n, p, m.import_rev[i]))
+        else:
+            out.append("  import %s { prefix %s; }" % (n, p))
     for n in m.includes:
         out.append("  include %s;" % n)
     out.append("  identity id_%s;" % m.name)
@@ -234,10 +251,20 @@ class Schema:
         self.mods = mods
 
     def find_mod(self, sub, name):
+        """the loaded (sub)module of that name: the latest revision"""
+        best = None
         for m in self.mods:
-            if m.sub == sub and m.name == name:
-                return m
-        return None
+            if m.sub == sub and m.name == name and (best is None or best.rev < m.rev):
+                best = m
+        return best
+
+    def find_import(self, name, rev):
+        """the module an import statement denotes: the pinned revision when it is loaded, else the latest"""
+        if rev is not None:
+            for m in self.mods:
+                if not m.sub and m.name == name and m.rev == rev:
+                    return m
+        return self.find_mod(False, name)
 
     def whole(self, root):
         """root, the module it belongs to, and everything reachable through include statements"""
@@ -275,9 +302,9 @@ class Schema:
             root = mod
         else:
             root = None
-            for p, n in mod.imports:
+            for i, (p, n) in enumerate(mod.imports):
                 if p == pfx:
-                    root = self.find_mod(False, n)
+                    root = self.find_import(n, mod.import_rev.get(i))
                     break
             if root is None:
                 return None
@@ -601,7 +628,7 @@ BAD_TEXT = ("bad.yang", "module bad { prefix b; typedef t0 { type nosuch; } leaf
 
 
 def lines_of(S, extra_bad=False):
-    texts = [(m.name + ".yang", render_module(m)) for m in S.mods]
+    texts = [(m.name + ("@" + m.rev if m.rev else "") + ".yang", render_module(m)) for m in S.mods]
     if extra_bad:
         texts.insert(len(texts) // 2, BAD_TEXT)
     ops = ",".join("L%d" % i for i in range(len(texts))) + ",P"
@@ -799,6 +826,200 @@ def corpus():
     return out
 
 
+# ------------------------------------------------------------------ family "pinned revision"
+# Several revisions of one library module are loaded together; import statements pin a revision or not.  The
+# expected binding is fixed by construction (expect_of below is the generator's own reading: pinned => exactly that
+# revision's typedef, unpinned => the latest loaded revision, a name only another revision defines => error) and the
+# implementation's leaf types are compared with it directly; the model (revision-aware FindModule) is compared too.
+
+REVS = ["2017-11-30", "2018-05-05", "2019-03-01", "2020-01-01", "2021-06-15", "2021-06-16"]
+REV_KINDS = ["string", "uint32", "int8", "boolean", "int64", "binary", "uint8", "empty"]
+
+
+def expect_of(S, scope, t):
+    """the projected type a plain reference denotes, by the property text; None = error"""
+    b = S.bind(scope, t.name)
+    if b is None:
+        return None
+    if b[0] == "builtin":
+        return dict(kind=b[1], name=b[1], units="", default="", hasdef=False)
+    td = b[1]
+    e = expect_of(S, td.scope, td.type)
+    if e is None:
+        return None
+    e = dict(e, name=td.name)
+    if td.units is not None:
+        e["units"] = td.units
+    if td.default is not None:
+        e["default"], e["hasdef"] = td.default, True
+    return e
+
+
+def pinned_variant(rnd, small=False):
+    """returns (modules, expectations {leaf: projected type}, description)"""
+    def mk_td(sc, name, tname, units=None, default=None):
+        d = Typedef(name, sc)
+        d.type, d.units, d.default = TRef(tname), units, default
+        sc.typedefs.append(d)
+        return d
+
+    def mk_leaf(sc, name, tname):
+        x = Leaf(name)
+        x.type = TRef(tname)
+        sc.leaves.append(x)
+        return x
+
+    def mk_kid(sc, kind, name):
+        c = Scope(kind, name, sc.mod, sc)
+        sc.kids.append(c)
+        return c
+    nrev = 2 if small else rnd.choice([2, 3, 3])
+    revs = sorted(rnd.sample(REVS, nrev))
+    kinds = rnd.sample(REV_KINDS, nrev + 1)
+    libs = []
+    by_construction = {}
+    for i, r in enumerate(revs):
+        lib = Module("lib", False, rnd.choice(["lib", "l", "p"]), None)
+        lib.revisions = [r] + [x for x in revs[:i] if rnd.random() < 0.5]
+        rnd.shuffle(lib.revisions)
+        mk_td(lib.top, "id", kinds[i], units="u-" + r, default=("d%d" % i if rnd.random() < 0.5 else None))
+        mk_td(lib.top, "tag", kinds[i + 1], units="t-" + r)
+        mk_td(lib.top, "wrapped", rnd.choice(["id", lib.prefix + ":id"]), default="w-" + r)   # lib's own id of THIS revision
+        mk_td(lib.top, "only%d" % i, "int16", units="only-" + r)
+        libs.append(lib)
+    mods = list(libs)
+    n = [0]
+
+    def leafname(tag):
+        n[0] += 1
+        return "%s%d" % (tag, n[0])
+
+    def user(name, pins, sub_of=None, prefix=None):
+        """pins: list of (prefix, revision or None)"""
+        m = Module(name, sub_of is not None, prefix or rnd.choice(["p", "q", "u"]), sub_of)
+        for i, (pf, pin) in enumerate(pins):
+            m.imports.append((pf, "lib"))
+            if pin is not None:
+                m.import_rev[i] = pin
+        for pf, pin in pins:
+            idx = revs.index(pin) if pin is not None else len(revs) - 1
+            r = revs[idx]
+            x = mk_leaf(m.top, leafname("direct"), pf + ":id")
+            by_construction[x.name] = dict(kind=kinds[idx], name="id", units="u-" + r)
+            x = mk_leaf(m.top, leafname("wrapped"), pf + ":wrapped")
+            by_construction[x.name] = dict(kind=kinds[idx], name="wrapped", units="u-" + r, default="w-" + r)
+            x = mk_leaf(m.top, leafname("only"), pf + ":only%d" % idx)
+            by_construction[x.name] = dict(kind="int16", name="only%d" % idx, units="only-" + r)
+            loc = "loc_" + pf
+            mk_td(m.top, loc, pf + ":tag", default="L")
+            mk_td(m.top, loc + "2", rnd.choice([loc, m.prefix + ":" + loc]), units="chain")
+            x = mk_leaf(m.top, leafname("chained"), loc + "2")
+            by_construction[x.name] = dict(kind=kinds[idx + 1], name=loc + "2", units="chain", default="L")
+            c = mk_kid(m.top, "container", leafname("c"))
+            li = mk_kid(c, rnd.choice(["list", "container", "grouping"]), leafname("k"))
+            mk_td(li, "id", pf + ":id", units="inner")           # same name as the library's, nearer
+            x = mk_leaf(li, leafname("inner"), "id")
+            by_construction[x.name] = dict(kind=kinds[idx], name="id", units="inner")
+            x = mk_leaf(li, leafname("innerp"), pf + ":tag")
+            by_construction[x.name] = dict(kind=kinds[idx + 1], name="tag", units="t-" + r)
+            r_ = mk_kid(m.top, "rpc", leafname("r")) if sub_of is None and rnd.random() < 0.5 else None
+            if r_ is not None:
+                inp = mk_kid(r_, "input", leafname("in"))
+                x = mk_leaf(inp, leafname("rpcleaf"), pf + ":id")
+                by_construction[x.name] = dict(kind=kinds[idx], name="id", units="u-" + r)
+        return m
+    pins_all = [None] + revs
+    if small:
+        mods.append(user("pinned", [("l", revs[0])]))
+        mods.append(user("floating", [("anything", None)]))
+    else:
+        for j, pin in enumerate(pins_all):
+            mods.append(user("u%d" % j, [(rnd.choice(["l", "x", "lib"]), pin)]))
+        # two prefixes for two revisions of one module in one user
+        mods.append(user("two", [("a", revs[0]), ("b", revs[-1])]))
+        # a submodule with its own import statement, pinned differently from its module's
+        owner = user("own", [("l", rnd.choice(pins_all))])
+        sub = user("ownsub", [("l", rnd.choice(pins_all))], sub_of="own",
+                   prefix=(owner.prefix if rnd.random() < 0.5 else None))
+        owner.includes.append("ownsub")
+        mods += [owner, sub]
+    return mods, by_construction, "revs=%s" % ",".join(revs)
+
+
+def pinned_cases(rnd, tier):
+    import itertools
+    out = []
+    nvar, nord = (5, 5) if tier == "quick" else (60, 16)
+    variants = [pinned_variant(rnd, small=True)] + [pinned_variant(rnd) for _ in range(nvar)]
+    for vi, (mods, byc, desc) in enumerate(variants):
+        if vi == 0:
+            orders = [list(p) for p in itertools.permutations(range(len(mods)))]      # all load orders
+        else:
+            base = list(range(len(mods)))
+            orders = [base, base[::-1]]
+            for _ in range(nord):
+                o = base[:]
+                rnd.shuffle(o)
+                orders.append(o)
+        for o in orders:
+            S = Schema([mods[i] for i in o])
+            exp = {}
+            for sc in S.scopes():
+                for lf in sc.leaves:
+                    e = expect_of(S, sc, lf.type)
+                    assert e is not None, lf.name
+                    exp[lf.name] = e
+            for name, e in byc.items():      # the evaluator and the construction agree
+                for k, v in e.items():
+                    assert exp[name][k] == v, (name, k, v, exp[name])
+            go, ml, texts = lines_of(S)
+            out.append(("pinned:ok", False, go, ml, texts, 0, exp))
+        # single faults: a typedef that only another revision defines
+        S = Schema(list(mods))
+        users = [m for m in mods if m.name != "lib"]
+        for _ in range(2 if tier == "quick" else 4):
+            m = rnd.choice(users)
+            i = rnd.randrange(len(m.imports))
+            pf = m.imports[i][0]
+            bound = S.find_import("lib", m.import_rev.get(i))
+            others = [td.name for l in mods if l.name == "lib" and l is not bound for td in l.top.typedefs
+                      if bound.top.visible(td.name) is None]
+            if not others:
+                continue
+            x = Leaf("faulty")
+            x.type = TRef(pf + ":" + rnd.choice(others))
+            m.top.leaves.append(x)
+            o = list(range(len(mods)))
+            rnd.shuffle(o)
+            S2 = Schema([mods[j] for j in o])
+            assert expect_of(S2, m.top, x.type) is None
+            go, ml, texts = lines_of(S2)
+            out.append(("pinned:other-revision-only", True, go, ml, texts, 0, None))
+            m.top.leaves.pop()
+    return out
+
+
+def check_expect(goline, exp):
+    """the implementation's leaf types against the expectation fixed by construction"""
+    g = json.loads(goline)
+    run = g["runs"][0]
+    if run["errors"]:
+        return "errors where every reference is bound: %s" % run["errors"][:2]
+    found = {}
+    for md in run.get("modules") or []:
+        go_leaves(md["tree"], found)
+    for name, e in exp.items():
+        if name not in found:
+            return "leaf %s is not in the implementation's trees" % name
+        for gt, _dv in found[name]:
+            got = canon_go(gt)
+            proj = {k: got[k] for k in e}
+            if proj != e:
+                return "leaf %s: impl %s, expected by construction %s" % (name, json.dumps(proj, sort_keys=True),
+                                                                          json.dumps(e, sort_keys=True))
+    return None
+
+
 # ------------------------------------------------------------------ comparison
 
 def unhex(h):
@@ -938,7 +1159,7 @@ def build_cases(tier, seed):
     hist = {}
     for name, intent, S in corpus():
         go, ml, texts = lines_of(S)
-        cases.append(("corpus:" + name, intent, go, ml, texts, 0))
+        cases.append(("corpus:" + name, intent, go, ml, texts, 0, None))
     n_ok, n_fault = (260, 26) if tier == "quick" else (6000, 400)
     for i in range(n_ok):
         g = Gen(rnd, big=(i % 10 == 9))
@@ -946,7 +1167,7 @@ def build_cases(tier, seed):
         stats(S, hist)
         bad = rnd.random() < 0.1
         go, ml, texts = lines_of(S, extra_bad=bad)
-        cases.append(("random", False, go, ml, texts, 1 if bad else 0))
+        cases.append(("random", False, go, ml, texts, 1 if bad else 0, None))
     for f in FAULTS:
         made = 0
         tries = 0
@@ -958,8 +1179,12 @@ def build_cases(tier, seed):
                 continue
             made += 1
             go, ml, texts = lines_of(S)
-            cases.append(("fault:" + f, True, go, ml, texts, 0))
+            cases.append(("fault:" + f, True, go, ml, texts, 0, None))
         hist["fault:" + f] = made
+    pc = pinned_cases(rnd, tier)
+    cases += pc
+    hist["pinned:ok"] = sum(1 for c in pc if c[0] == "pinned:ok")
+    hist["pinned:other-revision-only"] = sum(1 for c in pc if c[0] != "pinned:ok")
     return cases, hist
 
 
@@ -972,8 +1197,15 @@ def run(res, tier, seed, proof):
     obs = {}
     nleaves = 0
     for c, g, m in zip(cases, go, ml):
-        label, intent, gl, mll, texts, nbad = c
+        label, intent, gl, mll, texts, nbad, exp = c
         why, o = compare(g, m, intent, nbad)
+        if exp is not None:
+            # oracle on the implementation alone (not model-backed): the binding is known by construction
+            w2 = check_expect(g, exp) if not g.startswith(("PANIC", "CRASH", "NOT-RUN")) else "implementation: " + g[:100]
+            if w2 is not None:
+                why, o = "pinned revision oracle: " + w2, "pinned-oracle"
+        elif label.startswith("pinned:") and why is None and o != "error":
+            why, o = "a name that only another revision defines was resolved", "pinned-oracle"
         obs[o] = obs.get(o, 0) + 1
         if o == "ok":
             nleaves += len(json.loads(m)["leaves"])
@@ -982,7 +1214,7 @@ def run(res, tier, seed, proof):
             if mism <= 3:
                 res.violation("model-vs-implementation disagree (%s): %s" % (label, why[:600]),
                               dict(kind="correspondence", label=label, intent=intent, go_case=gl, ml_case=mll,
-                                   texts=texts, nbad=nbad, why=why))
+                                   texts=texts, nbad=nbad, why=why, expect=exp))
     mid = len(cases) // 2
     cov = dict(
         evaluations=len(cases), distinct_nontrivial=len({c[3] for c in cases}),
@@ -1004,7 +1236,11 @@ def run(res, tier, seed, proof):
         "writes texts that narrow with the chain depth and are equal exactly when they denote equal sets (C10 covers "
         "their meaning)",
         "enum values / bit positions are positions in the member list (C14 covers explicit values); identityref "
-        "bases name an identity of the same text (C11); revisions are not used (C13)",
+        "bases name an identity of the same text (C11)",
+        "family 'pinned revision': the expected leaf types are fixed by construction in the generator (pinned import => "
+        "that revision's typedef, unpinned => latest loaded revision, name defined only by another revision => error) "
+        "and compared with the implementation directly -- an oracle on the implementation, not model-backed; the "
+        "model (FindModule with revision-date) is compared on the same cases too",
         "every submodule is reachable through include statements from its module, every import names a loaded module",
     ]
     return cov, assumptions
@@ -1020,5 +1256,9 @@ def replay(rep, res):
     print("impl :", go[:3000])
     print("model:", ml[:3000])
     why, o = compare(go, ml, rep.get("intent"), rep.get("nbad", 0))
+    if rep.get("expect"):
+        w2 = check_expect(go, rep["expect"])
+        if w2 is not None:
+            why, o = "pinned revision oracle: " + w2, "pinned-oracle"
     print("verdict:", o, why or "")
     return 0 if why is None else 1
